@@ -65,6 +65,8 @@ EscapeOf(cp) ==
       [] OTHER -> "raw"
 
 \* ---- values ----------------------------------------------------------------------------
+RECURSIVE Flat(_)
+Flat(ps) == IF ps = <<>> THEN <<>> ELSE Head(ps) \o Flat(Tail(ps))
 RECURSIVE Encode(_), EncodeKey(_), Items(_, _), Members(_, _), Fields(_, _), Bytes(_, _)
 Wrap(nm, body) == "{" \o Name(nm) \o ":" \o body \o "}"
 Encode(v) ==
@@ -76,6 +78,7 @@ Encode(v) ==
       [] v.t = "num" -> v.a
       [] v.t = "str" -> Quoted(v.s)
       [] v.t = "char" -> Quoted(v.s)
+      [] v.t = "disp" -> Quoted(Flat(v.parts))          \* collect_str: the text a Display impl writes piece by piece
       [] v.t = "bytes" -> "[" \o Bytes(v.n, TRUE) \o "]"
       [] v.t = "some" -> Encode(v.v)
       [] v.t = "newtype" -> Encode(v.v)
@@ -101,13 +104,14 @@ Fields(fs, first) == IF fs = <<>> THEN ""
 \* keys: strings, characters, integers (quoted), unit variants, newtype-wrapped ones
 RECURSIVE KeyClass(_)
 KeyClass(k) ==
-    CASE k.t \in {"str", "char", "unitvar"} -> "must"
+    CASE k.t \in {"str", "char", "unitvar", "disp"} -> "must"
       [] k.t = "num" -> IF k.int THEN "must" ELSE "may"       \* floats: either refused or as the reference
       [] k.t = "newtype" -> KeyClass(k.v)
       [] k.t \in {"bool", "some", "none", "unit", "unitstruct", "null"} -> "may"
       [] OTHER -> "never"                                      \* sequences, maps, structs, bytes, data variants
 EncodeKey(k) ==
     CASE k.t \in {"str", "char"} -> Quoted(k.s)
+      [] k.t = "disp" -> Quoted(Flat(k.parts))
       [] k.t = "unitvar" -> Name(k.name)
       [] k.t = "num" -> "\"" \o k.a \o "\""
       [] k.t = "bool" -> IF k.b THEN "\"true\"" ELSE "\"false\""
